@@ -592,8 +592,20 @@ class Check:
             m["note"] = note
         self.models.append(m)
         if r.error:
-            self.violations.append({"what": "TLC reports an error in model %s" % r.name,
-                                    "error": r.error, "trace": r.trace[-3:]})
+            v = {"what": "TLC reports an error in model %s" % r.name, "error": r.error, "trace": r.trace[-3:]}
+            # a counterexample word, when the last state of the error trace carries one
+            try:
+                last = "\n".join(r.trace[-1])
+                mt = re.search(r'ty = "(\w+)"', last)
+                mw = re.search(r'\bw = <<([0-9, ]*)>>', last)
+                if mw:
+                    cps = [int(x) for x in mw.group(1).split(",") if x.strip()]
+                    v["counterexample"] = {"type": mt.group(1) if mt else None, "w": cps,
+                                           "text": "".join(chr(c) for c in cps if c < 0x110000)}
+                    v["what"] += ": type %s, word %r" % (mt.group(1) if mt else "?", v["counterexample"]["text"])
+            except Exception:
+                pass
+            self.violations.append(v)
 
     def add_samples(self, cases_path, n=3):
         try:
